@@ -106,6 +106,12 @@ fn java_type(t: &Ty, model: &Model) -> String {
     }
 }
 
+/// C16 pins the answer for this string (a valid descriptor, or one of the statement's must-be-none kinds); for every
+/// other string the releases may differ without the *file* meaning anything else (used by C10)
+pub fn pinned_by_c16(s: &str) -> bool {
+    !matches!(parse_descriptor(s), Err(Bad::Other))
+}
+
 fn expected(s: &str, model: &Model) -> Result<OSig, Bad> {
     let (ps, r) = parse_descriptor(s)?;
     let params: Vec<String> = ps.iter().map(|t| java_type(t, model)).collect();
